@@ -76,6 +76,8 @@ func checkC19(c *Ctx) {
 	checkBalanceTable(c, l, "TABLE-balance", "v2", l.Func("", "*Tree.balance"))
 
 	checkV2TreeRules(c, l)
+	checkV2RemoveLookup(c, l)
+	checkV2IterTable(c, l)
 	c.rule("SIB-memoize", "FindMemoized (shard lookup for lazily loaded nodes) agrees with Find", 2)
 	checkV2Memoize(c, l, "SIB-memoize")
 
